@@ -46,6 +46,18 @@ def run(ctx):
     rng = ctx.rng
     scan_tables(ctx)
     la, lb = ctx.oracle.run([('api_vtable_labels', [True]), ('api_vtable_labels', [False])])
+    far = {}
+    try:
+        # allele pairs far apart in each bundled table (read like the implementation reads them): the V term of such a pair is large in
+        # BOTH chains, the sum lies well above 127
+        import pyrepseq
+        for chain, labels in (('alpha', la), ('beta', lb)):
+            t = pd.read_csv(os.path.join(os.path.dirname(pyrepseq.__file__), 'data', 'vdists_%s.csv' % chain), index_col=0)
+            m = t.to_numpy()
+            order = np.dstack(np.unravel_index(np.argsort(-m, axis=None), m.shape))[0][:40]
+            far[chain] = [(t.index[i], t.columns[j]) for i, j in order if t.index[i] in labels and t.columns[j] in labels]
+    except Exception:
+        far = {}
     cases = []
     for t in range(40 if ctx.quick else 600):
         n = rng.randint(2, 14)
@@ -56,8 +68,20 @@ def run(ctx):
             ca = mutate(rng, rng.choice(roots), AA, rng.randint(0, 2))
             if t % 6 == 5:
                 cb = rng.choice(AA) * 4 + ''.join(rng.choice(AA) for _ in range(6)) + rng.choice(AA) * 3   # nothing close
-            rows.append((rng.choice(la[:12]), ca, rng.choice(lb[:12]), cb))
+            # alleles: the head of each table, or (every third table) any allele of it
+            pa, pb = (la, lb) if t % 3 == 2 else (la[:12], lb[:12])
+            rows.append((rng.choice(pa), ca, rng.choice(pb), cb))
         chain = rng.choice(['alpha', 'beta', 'both'])
+        if t % 4 == 1 and far.get('alpha') and far.get('beta'):
+            # the same clonotype sequence with V alleles far apart in both chains (and with one far, one equal): every pair is a candidate
+            # by its CDR3s, the V terms decide
+            (a1, a2), (b1, b2) = rng.choice(far['alpha']), rng.choice(far['beta'])
+            ca, cb = rows[0][1], rows[0][3]
+            extra = [(a1, ca, b1, cb), (a2, ca, b2, cb), (a1, ca, b2, cb), (a2, mutate(rng, ca, AA, 1), b1, mutate(rng, cb, AA, 1))]
+            for row in extra:
+                rows.insert(rng.randint(0, len(rows)), row)
+            chain = rng.choice(['both', 'both', 'alpha', 'beta'])
+            ctx.count('far_apart_v_alleles')
         k = rng.choice([1, 2])
         trimmed = rng.random() < 0.6
         kw = {}
@@ -86,6 +110,8 @@ def run(ctx):
                 rows.insert(pos, row)
                 ctx.count('short_cdr3_' + where)
         maxt = rng.choice([0, 6, 12, 20, 40, 90, 500])
+        if t % 4 == 1:
+            maxt = rng.choice([90, 140, 200, 500])
         cases.append((rows, chain, k, trimmed, kw, full, maxt))
     reqs = [('api_tcrdist_nn', [dict(alpha=0, beta=1, both=2)[c], k, tr, mt, f['ntrim'], f['ctrim'], f['dist_weight'], f['gap_penalty'],
                                 list(rows)]) for rows, c, k, tr, kw, f, mt in cases]
